@@ -164,6 +164,11 @@ func newNet(cfg cnCfg, scratch string) (*cnNet, error) {
 	for i := 0; i < cfg.Validators; i++ {
 		n.names[n.vals[i].entAddr.String()] = fmt.Sprintf("E%d", i)
 	}
+	// every entity also authorises the node of the next entity (its node list is a whitelist): a node changing hands is then
+	// refused or allowed by the registry's update rules, not for lack of the entity's consent
+	for i := 0; i < cfg.Validators && cfg.Validators > 1; i++ {
+		n.vals[i].ent.Nodes = append(n.vals[i].ent.Nodes, n.vals[(i+1)%cfg.Validators].ident.NodeSigner.Public())
+	}
 	for i := 0; i < cfg.Users; i++ {
 		s := mk(signature.SignerEntity)
 		u := &cnUser{signer: s, addr: staking.NewAddress(s.Public()), name: fmt.Sprintf("U%d", i)}
